@@ -7,9 +7,10 @@ CONSTANTS
   MateChoices = {2}
   RejectChoices = {TRUE,FALSE}
   MaxPairChoices = {0,1}
-  Classes = {"A","N","W"}
+  Classes = {"A","W"}
+  PlainStrats = {}
   PairLevelOnly = FALSE
-  Variant = "D20"
+  Variant = "D102"
 INVARIANT TypeOK
 INVARIANT Inv_C01_Once
 INVARIANT Inv_C01_AtMostOnce
